@@ -707,10 +707,26 @@ func (v *Verifier) appendNote(fr *Frame, st *State, dst *SliceV) {
 	v.assume("append is modelled as always allocating a fresh backing array (in-place growth within cap is not observable through the verified functions' own views)")
 }
 
+func markWild(val Value) {
+	switch x := val.(type) {
+	case *PtrV:
+		if x.Obj != nil {
+			x.Obj.Wild = true
+		}
+	case *IteV:
+		markWild(x.A)
+		markWild(x.B)
+	}
+}
+
 // noteWrite: frame check for writes to entry objects.
 func (v *Verifier) noteWrite(fr *Frame, st *State, o *Object, path []PE) {
 	if v.writeLog != nil {
 		v.writeLog[o] = true
+	}
+	if o.Wild && v.frameOn && !v.scratch {
+		fr.oblige(st, "frame:wild", v.F.False(), fmt.Sprintf("write through a loop-carried pointer whose target is not tracked (at %s)", v.pos(fr.curPos)))
+		return
 	}
 	if !o.Entry || !v.frameOn {
 		return
@@ -972,6 +988,31 @@ func (fr *Frame) havocLoop(st *State, h *ssa.BasicBlock, body map[*ssa.BasicBloc
 				}
 				continue
 			}
+			if tc := fr.topContract(); tc != nil && tc.Options["owned-loop-slices"] != "" {
+				// "option owned-loop-slices": a slice variable that the loop reassigns (by append) is, at the head of an
+				// arbitrary iteration, an arbitrary slice over a backing array of its own that has the ownership class of
+				// the value it had at loop entry: visible to the caller (shared with memory that existed at entry) or not.
+				// At the end of every iteration the value must not be more visible than that (checked at the back edge).
+				cs := cur.(*SliceV)
+				nv := v.symValue(nm, p.Type(), false).(*SliceV)
+				if nv.Obj != nil {
+					nv.Obj.Entry = cs.Obj != nil && (cs.Obj.Entry || cs.Obj.Escaped)
+					if c, okc := v.initMem[nv.Obj]; okc {
+						st.mem[nv.Obj] = c
+					}
+				}
+				if fr.ownedHead == nil {
+					fr.ownedHead = map[*ssa.Phi]bool{}
+				}
+				fr.ownedHead[p] = nv.Obj != nil && nv.Obj.Entry
+				fr.ownedSeen = true
+				st.env()[p] = nv
+				if p.Comment != "" {
+					st.srcVar[p.Comment] = nv
+					st.srcAdr[p.Comment] = false
+				}
+				continue
+			}
 			if fr.topContract() == nil || fr.topContract().Options["fresh-loop-slices"] == "" {
 				unsup("loop-carried slice value %s (use 'option fresh-loop-slices' when every value it takes is freshly allocated)", p.Name())
 			}
@@ -987,6 +1028,24 @@ func (fr *Frame) havocLoop(st *State, h *ssa.BasicBlock, body map[*ssa.BasicBloc
 				st.srcAdr[p.Comment] = false
 			}
 			v.assume("loop-carried slice " + phiName(p) + " is treated as an arbitrary slice with its own backing array at the loop head (option fresh-loop-slices: every value assigned to it is freshly allocated)")
+		case *PtrV, *IteV:
+			// a pointer walking a linked structure: at the head of an arbitrary iteration it is nil or points to an
+			// arbitrary object of its type (a fresh object with arbitrary content stands for it). Sound for what is
+			// READ through it; a WRITE through it would land in the stand-in instead of the real structure, so the
+			// stand-in is marked and any write to it is reported (frame obligation "wild")
+			if _, isPtr := p.Type().Underlying().(*types.Pointer); !isPtr {
+				unsup("loop-carried value of kind %T", cur)
+			}
+			save := v.nullableResults
+			v.nullableResults = true
+			nv := v.symValue(nm, p.Type(), false)
+			v.nullableResults = save
+			markWild(nv)
+			st.env()[p] = nv
+			if p.Comment != "" {
+				st.srcVar[p.Comment] = nv
+				st.srcAdr[p.Comment] = false
+			}
 		case *IfaceV:
 			// an interface value (an error) carried around the loop: arbitrary at the head of an arbitrary iteration
 			nv := &IfaceV{V: v.F.Fresh(nm+"!iface", mkSort("Iface"))}
